@@ -84,10 +84,32 @@ Fixpoint wiped_by_late (c : N) (id : bytes) (h0 h : list obs) : bool :=
        | _ => false end) || wiped_by_late c id h0 r
   end.
 
+(* second knock-on effect: the late registration overwrites the pending entry of ANOTHER connection
+   with the same identifier (the table is keyed by client id): that connection's will is lost *)
+Fixpoint will_entry (id : bytes) (l : list (bytes * Z * msg)) : option msg :=
+  match l with
+  | [] => None
+  | e :: r => if beq_bytes (fst (fst e)) id then Some (snd e) else will_entry id r
+  end.
+Fixpoint overwritten_by_late (c : N) (id : bytes) (h0 h : list obs) : bool :=
+  match h with
+  | [] => false
+  | b :: r =>
+      (match b_op b with
+       | OTeardown c' _ =>
+           negb (c' =? c) && late_registrant c' h0 &&
+           match will_entry id (sn_wills (b_pre b)), will_entry id (sn_wills (b_post b)) with
+           | Some m1, Some m2 => negb (beq_msg m1 m2)
+           | _, _ => false
+           end
+       | _ => false end) || overwritten_by_late c id h0 r
+  end.
+
 Definition KF_C16_takeover_delayed (k : caps) (h : list obs) (v : viol) : bool :=
   (((v_tag v =? V16_missing_takeover) || (v_tag v =? V16_cancelled) || (v_tag v =? V16_once)) &&
    late_registrant (v_conn v) h) ||
-  (((v_tag v =? V16_missing) || (v_tag v =? V16_missing_takeover)) && wiped_by_late (v_conn v) (v_id v) h h).
+  (((v_tag v =? V16_missing) || (v_tag v =? V16_missing_takeover) || (v_tag v =? V16_late)) &&
+   (wiped_by_late (v_conn v) (v_id v) h h || overwritten_by_late (v_conn v) (v_id v) h h)).
 
 (* C16-2: the will delay is larger than the session expiry interval at the end of the connection
    (no Session Expiry property at CONNECT, interval lowered by DISCONNECT, or capped by the server
